@@ -1,6 +1,6 @@
 (* C05 — AES-GCM protection matches the DLMS construction and detects every tampering.
    All theorems hold for an arbitrary block function E with 16-byte output, hence for AES. *)
-From Dlms Require Import Base FieldsModel Aes Gcm SecurityModel SecurityProofs.
+From Dlms Require Import Base FieldsModel Aes Gcm SecurityModel SecurityProofs WrapProofs.
 
 (* protecting a plaintext yields exactly GCM ciphertext || first 12 tag bytes, with
    nonce = system title || 4-byte counter and associated data = security-control byte || authentication key *)
@@ -52,6 +52,15 @@ Proof. exact validate_key_lengths. Qed.
 Theorem C05_short_text_refused : forall (E : bytes -> bytes -> bytes) x title ic key ak ct_in, (length ct_in < 12)%nat ->
   exists e, sec_decrypt E x title ic key ak ct_in = Err e.
 Proof. exact short_text_refused. Qed.
+
+(* a wrapped key unwraps to the key that was wrapped (RFC 3394), for any key of a whole number of 8-byte blocks (16 or 32
+   bytes in DLMS) and any pair of block functions with D (E x) = x on 16-byte blocks *)
+Theorem C05_unwrap_wrap : forall (E D : bytes -> bytes),
+  (forall x, length x = 16%nat -> length (E x) = 16%nat) -> (forall x, length x = 16%nat -> D (E x) = x) ->
+  forall key_data, Nat.modulo (length key_data) 8 = 0%nat -> (16 <= length key_data)%nat ->
+  key_unwrap D (key_wrap E key_data) = Some key_data.
+Proof. exact unwrap_wrap. Qed.
+Print Assumptions C05_unwrap_wrap.
 
 (* non-vacuity: the DLMS Green Book vector, with the executable AES *)
 Example C05_nonvacuous :
